@@ -18,6 +18,9 @@ type Gen struct {
 	// Focus names the tag ("" = everything random).
 	Focus string
 	Mask  int
+	// EmptyServerControl is set by Media when the value carries an EXT-X-SERVER-CONTROL without any
+	// attribute (focus servercontrol, mask 0)
+	EmptyServerControl bool
 }
 
 func (g *Gen) chance(p float64) bool { return g.R.Float64() < p }
@@ -167,6 +170,7 @@ func (g *Gen) part() *playlist.MediaPart {
 
 // Media generates a valid media playlist value.
 func (g *Gen) Media() *playlist.Media {
+	g.EmptyServerControl = false
 	m := &playlist.Media{
 		Version:        1 + g.R.Intn(10),
 		TargetDuration: 1 + g.int31()%(1<<31-1),
@@ -297,7 +301,9 @@ func (g *Gen) Media() *playlist.Media {
 	}
 	if sc := m.ServerControl; sc != nil && !sc.CanBlockReload && sc.PartHoldBack == nil && sc.CanSkipUntil == nil {
 		if g.Focus == "servercontrol" {
-			m.ServerControl = nil
+			// the all-absent subset of the tag: the value is kept (C14 round trip: every subset of
+			// optional fields); the caller leaves it out of the grammar clause of C15
+			g.EmptyServerControl = true
 		} else {
 			sc.CanBlockReload = true
 		}
